@@ -108,7 +108,9 @@ def monitor_trace(tr):
                                  msg='%d further calls from one random state: the copy gives %s, the original %s' % (out['twin']['ncalls'], out['twin']['copy'], out['twin']['orig'])))
             continue
         if kind == 'clone':
-            if out.get('clone') != 'ok':
+            if out.get('clone') != 'ok' and cfg['backend'] in ('sql', 'bare_sql', 'sqlmem'):
+                tags['clone-of-an-unpicklable-backend'] += 1           # (a database connection does not pickle: not a picklable backend)
+            elif out.get('clone') != 'ok':
                 viol.append(dict(prop='C20', i=rec['i'], sig=dict(kind='unpicklable', exc=out.get('exc')), msg='dill round-trip failed: %r' % (out,)))
             else:
                 if 'error' not in b and (b['mem'], b['arch'], b['swap'], b['stats']) != (a['mem'], a['arch'], a['swap'], a['stats']):
